@@ -245,15 +245,7 @@ impl NoGoodStore {
             .filter_map(|(_len, val)| {
                 NoGood::try_from_pair_iter(&mut val.iter().filter_map(|ng| ng.conclude(nogood)))
             })
-            .try_fold(&mut result, |acc, ng| {
-                if ng.is_violating(acc) {
-                    log::trace!("ng conclusion violating");
-                    None
-                } else {
-                    acc.disjunction(&ng);
-                    Some(acc)
-                }
-            })?;
+            .for_each(|ng| result.disjunction(&ng));
         if self
             .store
             .iter()
